@@ -1,7 +1,7 @@
 (* Correspondence runner for C08.  The round-trip law is judged directly on what the
    implementation returned: 0 ok, 1 impl <> model, 2 the law is violated. *)
 From Coq Require Import List NArith Bool String.
-From GQL Require Import Base.Bytes Syntax.Lexer Syntax.Ast Syntax.Parser Syntax.Printer Proofs.SyntaxComplete Proofs.SyntaxRender.
+From GQL Require Import Base.Bytes Syntax.Lexer Syntax.Ast Syntax.Parser Syntax.Printer Syntax.PrintVisit.
 From GQL Require Export Run.C03run.
 Import ListNotations.
 Open Scope N_scope.
@@ -10,7 +10,43 @@ Inductive c08case :=
 | RoundTrip (src : string) (orig : gts) (printed : string) (reparsed : option gts) (stable : bool) (unchanged : bool)
     (* src = the source, orig = the parsed AST, printed = printer.Print(orig), reparsed = parser.Parse(printed),
        stable = the print of reparsed equals printed, unchanged = the AST is the same before and after Print *)
-| NoEdit (unchanged : bool).
+| NoEdit (unchanged : bool)
+| VisitEdit (str_changed : bool) (node_changed : bool).
+    (* visitor.Visit on the document { a } with a leave function for Name nodes that returns a string
+       (str_changed: the AST differs afterwards) resp. a fresh *ast.Name (node_changed) *)
+
+(* the model of Visit's edit application on the frame Field -> Name (Syntax/PrintVisit.v) *)
+Definition ve_heap : heap := [(1, mkHS 10 [(1, HPtr 2)]); (2, mkHS 20 []); (3, mkHS 20 [])].
+Definition ve_keys (k : N) : list N := if k =? 10 then [1] else [].
+Definition ve_fn (node : bool) (k : N) (v : rval) : option rval :=
+  if k =? 20 then Some (if node then RNode 3 else RStr [122; 122]) else None.
+Definition hval_eqb (a b : hval) : bool :=
+  match a, b with
+  | HNil, HNil => true
+  | HPtr x, HPtr y => x =? y
+  | HSlice x, HSlice y => bytes_eqb x y
+  | HAtom x, HAtom y => bytes_eqb x y
+  | _, _ => false
+  end.
+Fixpoint fields_eqb (a b : list (N * hval)) : bool :=
+  match a, b with
+  | [], [] => true
+  | (k, x) :: a', (k', y) :: b' => (k =? k') && hval_eqb x y && fields_eqb a' b'
+  | _, _ => false
+  end.
+Fixpoint heap_eqb (a b : heap) : bool :=
+  match a, b with
+  | [], [] => true
+  | (x, s) :: a', (y, t) :: b' => (x =? y) && (hs_kind s =? hs_kind t) && fields_eqb (hs_fields s) (hs_fields t) && heap_eqb a' b'
+  | _, _ => false
+  end.
+(* does the model's Visit change the heap? *)
+Definition ve_changes (node : bool) : bool :=
+  match visit ve_keys (ve_fn node) 3 ve_heap 1 with
+  | Some (h', _) => negb (heap_eqb h' ve_heap)
+  | None => false
+  end.
+
 
 (* every string-valued leaf of the AST (string values and descriptions: tag 9) *)
 Fixpoint strings_of (g : gt) : list bytes :=
@@ -27,6 +63,12 @@ Fixpoint contains (needle hay : bytes) : bool :=
 Definition check (c : c08case) : N :=
   match c with
   | NoEdit unchanged => if unchanged then 0 else 2
+  | VisitEdit str_changed node_changed =>
+    (* C08_no_edit: functions returning strings never modify the AST (a violation of the property's
+       no-edit clause when they do); the model's write through updateNodeField for a returned node is
+       a correspondence observation *)
+    if str_changed || ve_changes false then 2
+    else if Bool.eqb node_changed (ve_changes true) then 0 else 1
   | RoundTrip src orig printed reparsed stable unchanged =>
     if negb unchanged then 2
     else
@@ -47,16 +89,14 @@ Definition check (c : c08case) : N :=
                                       | Ok q => contains q (unhex printed) || contains [34; 34; 34] (unhex printed)
                                       | _ => false end) (strings_of o)) then 1
             else
-              (* the printer's layout: on executable documents the printed text is print_doc of the
-                 (model's) AST of the source *)
+              (* the printer's layout: the printed text is print_doc of the (model's) AST of the source,
+                 for executable and type-system documents alike *)
               match parse (unhex src) with
               | Ok (d0, _) =>
-                if negb (exec_only d0) then 0
-                else if negb (gt_eqb false (g_doc d0) o) then 1
+                if negb (gt_eqb false (g_doc (norm_doc d0)) o) then 1
                 else if negb (bytes_eqb (print_doc d0) (unhex printed)) then 1
-                (* the hypothesis of C08_lex_layout holds for this document's layout (proved for every parsed
-                   executable document with valid UTF-8 strings; evaluated here as a cross-check) *)
-                else if layout_wfb (lay_doc d0) then 0 else 1
+                (* (that this layout satisfies the hypothesis of C08_lex_layout is C08_layout_wf) *)
+                else 0
               | _ => 1
               end
           | _ => 1
